@@ -852,6 +852,11 @@ func block(c *vlib.Ctx, w *world, phase string, base []op, cells func(emit func(
 		if n&1023 == 1023 && c.Expired() {
 			return
 		}
+		if n&255 == 255 && time.Since(t0) > 20*time.Second {
+			// keep the real time spent on one standing world far below the 1 min logical-time margin
+			runHistory(w, phase+"/world", base)
+			t0 = time.Now()
+		}
 		o := op{Op: "req", Req: rc}
 		w.apply(o, func(extra map[string]any) any {
 			return witness{Phase: phase, History: append(append([]op{}, base...), o), Extra: extra}
@@ -943,11 +948,12 @@ func phaseEndpoints(c *vlib.Ctx, w *world) {
 	if full {
 		origs = append(origs, "http://"+hostPort)
 	}
-	for i := 0; i < len(epHandlers); i += 36 {
+	step := vlib.Pick(c, 36, 6)
+	for i := 0; i < len(epHandlers); i += step {
 		if c.Expired() {
 			return
 		}
-		hs := epHandlers[i:min(i+36, len(epHandlers))]
+		hs := epHandlers[i:min(i+step, len(epHandlers))]
 		block(c, w, "endpoints", tableWorld(false, false), func(emit func(*reqCase)) {
 			for _, h := range hs {
 				for _, m := range methods {
@@ -1223,7 +1229,7 @@ func implCanon(w *world) string {
 func phaseHistories(c *vlib.Ctx, w *world) {
 	c.Scenario("histories")
 	alpha := histAlphabet(c)
-	maxDepth := vlib.Pick(c, 5, 7)
+	maxDepth := vlib.Pick(c, 5, 6)
 	c.Extra("history_alphabet", int64(len(alpha)))
 	seen := map[string]bool{}
 	runHistory(w, "histories", nil)
